@@ -1036,8 +1036,9 @@ class C08(SimCheck):
             scn = simgen.make_bigint(scn, r)
             scn["cfg"]["delay"] = r.choice([0, 0, 1])
             scn["floatZeroDelay"] = r.random() < 0.6
-            scn["profile"]["budget"] = 200          # enough reactions left for the timers at the large times to send
-            scn["profile"]["maxHops"] = 2
+            scn["profile"]["budget"] = 120          # enough reactions left for the timers at the large times to send
+            scn["profile"]["maxHops"] = 1
+            scn["drive"] = {"mode": "steps", "n": 3000}   # and enough steps to get there
         return scn
 
     def run_impl(self, case):
@@ -1176,6 +1177,11 @@ class C12(SimCheck):
                      "setRange": 0, "gotoGeo": 0, "gotoHere": 2}, "pTelemetry": 0.25}
 
     def tweak(self, r, scn):
+        if scn.get("tolerant"):
+            # exceptions that escape from telemetry callbacks in particular: the updates that follow must still
+            # deliver one telemetry per node, each with its own position
+            scn["profile"]["pTelemetry"] = 0.7
+            scn["escapeAt"] = 1
         return scn
 
     def obs(self, case, res):
